@@ -504,15 +504,15 @@ class _UpdateStates(FnCheck):
             raise Unsupported('result dict local `states_by_handle` not found (renamed?)')
         k = z3.Const('k!inv', Val)
         dom = z3.Select(st.get_arr('DK'), res.e)
-        return z3.And(
-            st.ghost['dirty'] == 0,
-            z3.ForAll([k], z3.Select(dom, k) == z3.Select(st.ghost['changed'], k)),
-            z3.ForAll([k], z3.Implies(z3.Select(self.has0, k), z3.And(
+        return {
+            'index_consistent': st.ghost['dirty'] == 0,
+            'notification_keys_are_the_changed_handles': z3.ForAll([k], z3.Select(dom, k) == z3.Select(st.ghost['changed'], k)),
+            'stored_versions_never_decrease': z3.ForAll([k], z3.Implies(z3.Select(self.has0, k), z3.And(
                 z3.Select(st.ghost['tbl_has'], k), z3.Select(st.ghost['tbl_ver'], k) >= z3.Select(self.ver0, k)))),
-            z3.ForAll([k], z3.Implies(z3.Select(st.ghost['changed'], k), z3.Select(st.ghost['tbl_has'], k))),
-            z3.ForAll([k], z3.Implies(z3.Not(z3.Select(st.ghost['changed'], k)), z3.And(
+            'changed_handles_are_stored': z3.ForAll([k], z3.Implies(z3.Select(st.ghost['changed'], k), z3.Select(st.ghost['tbl_has'], k))),
+            'unchanged_handles_keep_their_state': z3.ForAll([k], z3.Implies(z3.Not(z3.Select(st.ghost['changed'], k)), z3.And(
                 z3.Select(st.ghost['tbl_has'], k) == z3.Select(self.has0, k),
-                z3.Select(st.ghost['tbl_ver'], k) == z3.Select(self.ver0, k)))))
+                z3.Select(st.ghost['tbl_ver'], k) == z3.Select(self.ver0, k))))}
 
     def loops(self, ex):
         hv = ['DK', 'DV', 'DN']
@@ -674,3 +674,4 @@ class ReloadAll(FnCheck):
 
 def locks(st):
     return st.ghost.get('locks', ())
+
